@@ -7,7 +7,8 @@ RULE = ("ciphers {chacha20, chacha20-ietf, xchacha20, salsa20, salsa2012, salsa2
         ", one process per backend configuration; the 5 core functions x 36 key/input patterns x {NULL, 2 constants}; "
         "IETF limit: forked probes of (ic, len) on both sides of ic+ceil(len/64)=2^32 including lengths 2^38+-1, 2^39, 2^63, 2^64-1 on a "
         "one-page buffer followed by PROT_NONE (refused vs processed). Lengths whose block count would pass 2^64 are not judged. "
-        "Each (cipher, api, len, counter, pattern, cfg) tuple is run once; non-trivial = len > 0 compared with the reference.")
+        "Each (cipher, api, len, counter, pattern, cfg) tuple is run once; non-trivial = len > 0 compared with the reference."
+        " Far carries: 64-bit counters starting 4097..70001 blocks below 2^32, 2^33 and the 64-bit wrap with requests long enough to run across.")
 
 META = {
     "engine": "E-shape", "level": "exploration",
